@@ -719,6 +719,13 @@ func (h *fsHandler) openIndexFile(ctx *RequestContext, dirPath string, mustCompr
 		if err == nil {
 			return ff, nil
 		}
+		if mustCompress && err != errDirIndexRequired && !os.IsNotExist(err) {
+			// the index file is there, only its compressed copy cannot be made: serve it uncompressed,
+			// like handleRequest does for a file that is requested by name
+			if ff, err1 := h.openFSFile(indexFilePath, false); err1 == nil {
+				return ff, nil
+			}
+		}
 		if !os.IsNotExist(err) {
 			return nil, fmt.Errorf("cannot open file %q: %s", indexFilePath, err)
 		}
@@ -844,6 +851,12 @@ func (h *fsHandler) handleRequest(c context.Context, ctx *RequestContext) {
 		if mustCompress && err == errNoCreatePermission {
 			hlog.SystemLogger().Errorf("Insufficient permissions for saving compressed file for path=%q. Serving uncompressed file. "+
 				"Allow write access to the directory with this file in order to improve hertz performance", filePath)
+			mustCompress = false
+			ff, err = h.openFSFile(filePath, mustCompress)
+		} else if mustCompress && err != nil && err != errDirIndexRequired && !os.IsNotExist(err) {
+			// The compressed copy could not be made or opened for another reason (read-only file system,
+			// name too long with the suffix, disk full, ...): that says nothing about the file itself.
+			hlog.SystemLogger().Errorf("Cannot save compressed file for path=%q, error=%s. Serving uncompressed file", filePath, err)
 			mustCompress = false
 			ff, err = h.openFSFile(filePath, mustCompress)
 		}
